@@ -203,6 +203,67 @@ Example C10_resplit_nonvacuous :
 Proof. exact wrap_resplit_example_premises. Qed.
 Print Assumptions C10_resplit_nonvacuous.
 
+(* ---- the title and the message block (Title.format_for_mcnp_input, Message.format_for_mcnp_input) ---- *)
+
+(* 12. the written title line fits the limit and is a prefix of the title *)
+Theorem C10_title_width : forall W t, 1 <= W -> slen (title_line W t) < W.
+Proof. exact title_line_width. Qed.
+Print Assumptions C10_title_width.
+
+Theorem C10_title_prefix : forall W t, title_line W t ++ drop (W - 1) t = t.
+Proof. exact title_line_prefix. Qed.
+Print Assumptions C10_title_prefix.
+
+(* what is cut: the title is written unchanged exactly when it has at most W - 1 characters; a title that fills
+   all W columns loses its last character (this is the open finding F-C01-spec-title-last-column of property C01;
+   the model is the code as it is) *)
+Theorem C10_title_kept_iff : forall W t, title_line W t = t <-> slen t <= W - 1.
+Proof. exact title_line_kept_iff. Qed.
+Print Assumptions C10_title_kept_iff.
+
+Theorem C10_title_full_width_cut : exists W t, slen t = W /\ title_line W t <> t.
+Proof. exact title_full_width_cut. Qed.
+Print Assumptions C10_title_full_width_cut.
+
+(* 13. every line of the written message block fits the limit, whatever the lines of the message are *)
+Theorem C10_message_width : forall W lines, 10 <= W -> Forall (fun x => slen x < W) (message_lines W lines).
+Proof. exact message_lines_width. Qed.
+Print Assumptions C10_message_width.
+
+(* the block keeps its structure: one written line per message line, each a prefix of it (the first after
+   "MESSAGE: " and cut 9 columns earlier), then the blank line that ends the block *)
+Theorem C10_message_shape : forall W lines,
+  List.length (message_lines W lines) = S (List.length lines) /\
+  List.last (message_lines W lines) "x" = "" /\
+  match lines with
+  | [] => True
+  | l0 :: r =>
+      exists cut0 cuts,
+        message_lines W lines = (message_prefix ++ cut0) :: List.app cuts [""] /\
+        cut0 ++ drop (W - 10) l0 = l0 /\
+        Forall2 (fun c l => c ++ drop (W - 1) l = l) cuts r
+  end.
+Proof. exact message_lines_shape. Qed.
+Print Assumptions C10_message_shape.
+
+Theorem C10_message_identity : forall W l0 r,
+  slen l0 <= W - 10 -> Forall (fun l => slen l <= W - 1) r ->
+  message_lines W (l0 :: r) = (message_prefix ++ l0) :: List.app r [""].
+Proof. exact message_lines_identity. Qed.
+Print Assumptions C10_message_identity.
+
+(* the earlier cut of the first line is what makes room for the prefix *)
+Theorem C10_message_first_line_cut_needed :
+  exists W l0, 10 <= W /\ W < slen (message_prefix ++ take (W - 1) l0).
+Proof. exact message_first_line_cut_needed. Qed.
+Print Assumptions C10_message_first_line_cut_needed.
+
+Example C10_message_nonvacuous :
+  message_lines 20 ["outp=abcdefghijklm.o"; " runtpe=abcdefghijklmnopq.r"; "x"] =
+    ["MESSAGE: outp=abcde"; " runtpe=abcdefghijk"; "x"; ""].
+Proof. exact message_lines_example. Qed.
+Print Assumptions C10_message_nonvacuous.
+
 (* a written line never consists of blanks only: MCNP would read it as the end of the block *)
 Theorem C10_no_blank_line : forall W cont first lines out,
   wrap_lines W cont first lines = WOk out -> Forall (fun l => all_blank l = false) out.
